@@ -10,6 +10,7 @@ import (
 	"github.com/hashicorp/hcl-lang/schema"
 	"github.com/hashicorp/hcl/v2"
 	"github.com/hashicorp/hcl/v2/hclsyntax"
+	"github.com/hashicorp/hcl/v2/json"
 	"github.com/zclconf/go-cty/cty"
 )
 
@@ -56,6 +57,17 @@ func (m Map) ReferenceOrigins(ctx context.Context) reference.Origins {
 				if expr, ok := kExpr.(ReferenceOriginsExpression); ok {
 					origins = append(origins, expr.ReferenceOrigins(ctx)...)
 				}
+			}
+		}
+
+		if json.IsJSONExpression(item.Key) {
+			// a key in JSON syntax may interpolate references just like a quoted key
+			keyCons := schema.AnyExpression{
+				OfType: cty.String,
+			}
+			kExpr := newExpression(m.pathCtx, item.Key, keyCons)
+			if expr, ok := kExpr.(ReferenceOriginsExpression); ok {
+				origins = append(origins, expr.ReferenceOrigins(ctx)...)
 			}
 		}
 
